@@ -13,6 +13,7 @@ Import ListNotations.
 
 Module PS := PositiveSet.
 
+
 (* ------------------------------------------------------------- finite sets *)
 Lemma aunion_l : forall a s t, PS.In a s -> PS.In a (aunion s t).
 Proof. intros a s t Hin. apply PS.union_2. exact Hin. Qed.
@@ -145,13 +146,17 @@ Proof. intros E F x a Ha. apply aenv_join_sound. right. exact Ha. Qed.
    it lies in itself, or objects that a write of the function may have stored into a
    pre-existing object ([po H]); the references held by an object created during the
    call are recorded in the abstract heap under the object's allocation site and the
-   field they are stored under *)
+   field they are stored under; immutable scalars may be held by anything *)
+(* k is described by an abstract object of S, or is an immutable scalar (those are not
+   recorded in the abstract heap) *)
+Definition descr (n0 : loc) (R : region) (h : heap) (S : aset_t) (k : loc) : Prop :=
+  (exists a, PS.In a S /\ gamma n0 R h a k) \/ gamma n0 R h ALeaf k.
 Definition inv_heap (n0 : loc) (R : region) (H : aheap) (h : heap) : Prop :=
   forall l g k, kids h l g k ->
     ((l < next h)%nat /\ (k < next h)%nat) /\
     ((l < n0)%nat -> ((k < n0)%nat /\ forall q, R q l -> R q k) \/
-                     exists a, PS.In a (fm_look (po H) g) /\ gamma n0 R h a k) /\
-    ((n0 <= l)%nat -> exists a, PS.In a (hp_look (hp H) (site_of h l) g) /\ gamma n0 R h a k).
+                     descr n0 R h (fm_look (po H) g) k) /\
+    ((n0 <= l)%nat -> descr n0 R h (hp_look (hp H) (site_of h l) g) k).
 
 (* h' extends h: nothing is deallocated and no object changes its allocation site *)
 Definition ext (h h' : heap) : Prop :=
@@ -196,6 +201,29 @@ Proof.
   - exact (Hi z m Hz).
 Qed.
 
+Lemma descr_ext : forall n0 R h h' S k,
+  ext h h' -> (k < next h)%nat -> descr n0 R h S k -> descr n0 R h' S k.
+Proof.
+  intros n0 R h h' S k Hext Hk [[a [Ha Hg]]|Hg].
+  - left. exists a. split; [exact Ha|exact (gamma_ext n0 R h h' a k Hext Hk Hg)].
+  - right. exact (gamma_ext n0 R h h' ALeaf k Hext Hk Hg).
+Qed.
+
+Lemma noleaf_in : forall a s, a <> ALeaf -> PS.In a s -> PS.In a (noleaf s).
+Proof. intros a s Hne Ha. unfold noleaf. apply PS.remove_2; [|exact Ha]. intros Heq. apply Hne. symmetry. exact Heq. Qed.
+
+(* a described location is described by the set without the scalar, or is a scalar *)
+Lemma descr_noleaf : forall n0 R h S T a k,
+  PS.In a S -> gamma n0 R h a k -> asubset (noleaf S) T = true -> descr n0 R h T k.
+Proof.
+  intros n0 R h S T a k Ha Hg Hsub. destruct (Pos.eq_dec a ALeaf) as [->|Hne].
+  - right. exact Hg.
+  - left. exists a. split; [|exact Hg]. exact (asubset_in _ _ a Hsub (noleaf_in a S Hne Ha)).
+Qed.
+
+Lemma hpts_leaf : forall H f a, PS.In ALeaf (hpts H f a).
+Proof. intros H f a. unfold hpts. apply aunion_l. apply asingle_in. Qed.
+
 (* -------------------------------------------------- one reference, abstractly *)
 Lemma kids_sound : forall n0 R H h l0 g l a0 f,
   inv_heap n0 R H h -> kids h l0 g l -> gamma n0 R h a0 l0 -> fmatch f g = true ->
@@ -203,12 +231,16 @@ Lemma kids_sound : forall n0 R H h l0 g l a0 f,
 Proof.
   intros n0 R H h l0 g l a0 f Hh Hk Hg Hm.
   destruct (Hh l0 g l Hk) as [[_ Hlt] [Hold Hnew]]. split; [exact Hlt|].
-  destruct a0 as [p|p|]; cbn [gamma hpts] in *.
-  - destruct Hg as [Hl0 Hr]. destruct (Hold Hl0) as [[Hlo Hcl]|[a [Ha Hga]]].
-    + exists (xI p). split; [apply aunion_l; apply asingle_in|]. cbn [gamma]. split; [exact Hlo|exact (Hcl _ Hr)].
-    + exists a. split; [apply aunion_r; exact (fm_look_match _ f g a Hm Ha)|exact Hga].
-  - destruct Hg as [Hge Hs]. destruct (Hnew Hge) as [a [Ha Hga]]. exists a. split; [|exact Hga].
-    rewrite Hs in Ha. exact (hp_look_match _ _ f g a Hm Ha).
+  destruct a0 as [p|p|]; cbn [gamma] in Hg.
+  - destruct Hg as [Hl0 Hr]. destruct (Hold Hl0) as [[Hlo Hcl]|[[a [Ha Hga]]|Hlf]].
+    + exists (xI p). split; [unfold hpts; apply aunion_r; apply aunion_l; apply asingle_in|].
+      cbn [gamma]. split; [exact Hlo|exact (Hcl _ Hr)].
+    + exists a. split; [unfold hpts; apply aunion_r; apply aunion_r; exact (fm_look_match _ f g a Hm Ha)|exact Hga].
+    + exists ALeaf. split; [apply hpts_leaf|exact Hlf].
+  - destruct Hg as [Hge Hs]. destruct (Hnew Hge) as [[a [Ha Hga]]|Hlf].
+    + exists a. split; [|exact Hga].
+      rewrite Hs in Ha. unfold hpts. apply aunion_r. exact (hp_look_match _ _ f g a Hm Ha).
+    + exists ALeaf. split; [apply hpts_leaf|exact Hlf].
   - destruct Hg.
 Qed.
 
@@ -231,10 +263,10 @@ Qed.
 
 Lemma areach_spec : forall H l r, areach H l = Some r -> aclosed H r = true /\ asubset l r = true.
 Proof.
-  intros H l r Hr. unfold areach in Hr.
-  destruct (aclosed H (areach_any H l)) eqn:Hc; cbn [andb] in Hr; [|discriminate Hr].
-  destruct (asubset l (areach_any H l)) eqn:Hs; [|discriminate Hr].
-  injection Hr as <-. split; assumption.
+  intros H l r. unfold areach. generalize (areach_any H l). intros r0. cbn zeta.
+  destruct (aclosed H r0) eqn:Hc; cbn [andb]; [|discriminate].
+  destruct (asubset l r0) eqn:Hs; [|discriminate].
+  intros Hr. injection Hr as <-. split; assumption.
 Qed.
 
 Lemma reach_vars_sound : forall n0 R H h e E ys r y l0 l,
@@ -262,6 +294,41 @@ Proof.
   - destruct Hg.
 Qed.
 
+(* allocation of one object: the invariant is kept if the references of the new
+   object are recorded under its site and its buffer, when it existed before, under
+   the site's taint *)
+Lemma alloc_preserves : forall n0 R b0 H h h' l s,
+  alloc_rel h h' l s ->
+  inv_heap n0 R H h -> inv_bt n0 R b0 H h -> inv_base n0 b0 h -> (n0 <= next h)%nat ->
+  (forall g k, kids h' l g k -> (k < next h)%nat /\ descr n0 R h (hp_look (hp H) s g) k) ->
+  ((base h' l < n0)%nat -> exists q l', In q (bt_look (bt H) s) /\ R q l' /\ base h' l = b0 l') ->
+  ext h h' /\ inv_heap n0 R H h' /\ inv_bt n0 R b0 H h' /\ inv_base n0 b0 h' /\ (l < next h')%nat /\
+  gamma n0 R h' (ASite s) l.
+Proof.
+  intros n0 R b0 H h h' l s [Hl [Hnext [Hsite [Hsites [Hbases Hkeep]]]]] Hh Hbt Hb0 Hn0 Hk Hb.
+  assert (Hext : ext h h').
+  { split; [lia|]. intros m Hm. apply Hsites. lia. }
+  assert (Hge : (n0 <= l)%nat) by lia.
+  split; [exact Hext|]. split; [|split; [|split; [|split]]].
+  - intros m g k Hkm. destruct (Nat.eq_dec m l) as [->|Hml].
+    + destruct (Hk g k Hkm) as [Hkn Hd].
+      split; [lia|]. split; [intros Hlt; lia|]. intros _. rewrite Hsite.
+      exact (descr_ext n0 R h h' _ k Hext Hkn Hd).
+    + apply Hkeep in Hkm; [|exact Hml]. destruct (Hh m g k Hkm) as [[Hm Hkn] [Hold Hnew]].
+      split; [lia|]. split.
+      * intros Hlt. destruct (Hold Hlt) as [Hcl|Hd]; [left; exact Hcl|right].
+        exact (descr_ext n0 R h h' _ k Hext Hkn Hd).
+      * intros Hgem. rewrite Hsites by exact Hml.
+        exact (descr_ext n0 R h h' _ k Hext Hkn (Hnew Hgem)).
+  - intros m Hgem Hm Hbm. destruct (Nat.eq_dec m l) as [->|Hml].
+    + rewrite Hsite. exact (Hb Hbm).
+    + rewrite Hsites by exact Hml. rewrite Hbases in Hbm by exact Hml. rewrite Hbases by exact Hml.
+      apply (Hbt m Hgem); [lia|exact Hbm].
+  - intros m Hm. rewrite Hbases by lia. exact (Hb0 m Hm).
+  - lia.
+  - cbn [gamma ASite]. split; [exact Hge|]. rewrite Hsite. symmetry. apply N.pos_pred_succ.
+Qed.
+
 Lemma eval_sound : forall n0 R b0 H h e E ex h' l,
   eval h e ex h' l -> forall v, eval_expr H E ex = Some v ->
   inv_env n0 R h e E -> inv_heap n0 R H h -> inv_bt n0 R b0 H h -> inv_base n0 b0 h -> (n0 <= next h)%nat ->
@@ -269,7 +336,7 @@ Lemma eval_sound : forall n0 R b0 H h e E ex h' l,
   exists a, PS.In a v /\ gamma n0 R h' a l.
 Proof.
   intros n0 R b0 H h e E ex h' l Hev.
-  induction Hev as [y l Hy|y f l0 g l Hy Hk Hm|ys y l0 l Hin Hy Hr
+  induction Hev as [y l Hy|y f l0 g l Hy Hk Hm|y f l0 h' l Hy Hal Hown Hnk|ys y l0 l Hin Hy Hr
                     |s cf sh cp dp vw h' l Hal Hbase Hkids|a b h' l Hev IH|a b h' l Hev IH];
     intros v Hv He Hh Hbt Hb0 Hn0.
   - (* EVar *)
@@ -277,12 +344,20 @@ Proof.
     destruct (He y l Hy) as [Hl [a [Ha Hg]]].
     split; [apply ext_refl|]. split; [exact Hh|]. split; [exact Hbt|]. split; [exact Hb0|]. split; [exact Hl|].
     exists a. split; assumption.
-  - (* ELoad *)
+  - (* ELoad, an object held by y *)
     cbn [eval_expr] in Hv. injection Hv as <-.
     destruct (He y l0 Hy) as [Hl0 [a0 [Ha0 Hg0]]].
     destruct (kids_sound n0 R H h l0 g l a0 f Hh Hk Hg0 Hm) as [Hl [a [Ha Hg]]].
     split; [apply ext_refl|]. split; [exact Hh|]. split; [exact Hbt|]. split; [exact Hb0|]. split; [exact Hl|].
     exists a. split; [|exact Hg]. exact (aload_in H f _ a a0 Ha0 Ha).
+  - (* ELoad, a new immutable scalar *)
+    cbn [eval_expr] in Hv. injection Hv as <-.
+    destruct (He y l0 Hy) as [Hl0 [a0 [Ha0 Hg0]]].
+    destruct (alloc_preserves n0 R b0 H h h' l LEAF_SITE Hal Hh Hbt Hb0 Hn0) as [Hext [Hh' [Hbt' [Hb0' [Hl Hg]]]]].
+    + intros g k Hk. exfalso. exact (Hnk g k Hk).
+    + intros Hb. rewrite Hown in Hb. destruct Hal as [-> _]. lia.
+    + split; [exact Hext|]. split; [exact Hh'|]. split; [exact Hbt'|]. split; [exact Hb0'|]. split; [exact Hl|].
+      exists ALeaf. split; [|exact Hg]. exact (aload_in H f _ ALeaf a0 Ha0 (hpts_leaf H f a0)).
   - (* EReach *)
     cbn [eval_expr] in Hv.
     destruct (reach_vars_sound n0 R H h e E ys v y l0 l He Hh Hv Hin Hy Hr) as [Hl [a [Ha Hg]]].
@@ -292,56 +367,36 @@ Proof.
     cbn [eval_expr] in Hv.
     destruct (areach H (alooks E dp)) as [rd|] eqn:Hrd; [|discriminate Hv].
     set (need := aunion (alooks E sh) (aunion (aload H cf (alooks E cp)) rd)) in Hv.
-    destruct (asubset need (hp_look (hp H) s 0)) eqn:Hneed; cbn [andb] in Hv; [|discriminate Hv].
+    destruct (negb (s =? LEAF_SITE)); cbn [andb] in Hv; [|discriminate Hv].
+    destruct (asubset (noleaf need) (hp_look (hp H) s 0)) eqn:Hneed; cbn [andb] in Hv; [|discriminate Hv].
     destruct (nsubset (taint H (alooks E vw)) (bt_look (bt H) s)) eqn:Htaint; [|discriminate Hv].
     injection Hv as <-.
-    destruct Hal as [Hl [Hnext [Hsite [Hsites [Hbases Hkeep]]]]].
-    assert (Hext : ext h h').
-    { split; [lia|]. intros m Hm. apply Hsites. lia. }
-    assert (Hge : (n0 <= l)%nat) by lia.
-    split; [exact Hext|]. split; [|split; [|split; [|split]]].
-    + (* inv_heap *)
-      intros m g k Hk. destruct (Nat.eq_dec m l) as [->|Hml].
-      * destruct (Hkids g k Hk) as [-> Hsrc].
-        assert (Hdesc : (k < next h)%nat /\ exists a, PS.In a need /\ gamma n0 R h a k).
-        { destruct Hsrc as [[z [Hz Hez]]|[[z [lz [g' [Hz [Hez [Hkz Hfm]]]]]]|[z [lz [Hz [Hez Hre]]]]]].
-          - destruct (He z k Hez) as [Hkn [a [Ha Hg]]]. split; [exact Hkn|]. exists a. split; [|exact Hg].
-            apply aunion_l. exact (alooks_in E sh z a Hz Ha).
-          - destruct (He z lz Hez) as [Hlz [a0 [Ha0 Hg0]]].
-            destruct (kids_sound n0 R H h lz g' k a0 cf Hh Hkz Hg0 Hfm) as [Hkn [a [Ha Hg]]].
-            split; [exact Hkn|]. exists a. split; [|exact Hg].
-            apply aunion_r. apply aunion_l. apply (aload_in H cf _ a a0); [|exact Ha].
-            exact (alooks_in E cp z a0 Hz Ha0).
-          - destruct (reach_vars_sound n0 R H h e E dp rd z lz k He Hh Hrd Hz Hez Hre) as [Hkn [a [Ha Hg]]].
-            split; [exact Hkn|]. exists a. split; [|exact Hg].
-            apply aunion_r. apply aunion_r. exact Ha. }
-        destruct Hdesc as [Hkn [a [Ha Hg]]].
-        split; [lia|]. split; [intros Hlt; lia|]. intros _. exists a. split.
-        -- rewrite Hsite. exact (asubset_in _ _ a Hneed Ha).
-        -- exact (gamma_ext n0 R h h' a k Hext Hkn Hg).
-      * apply Hkeep in Hk; [|exact Hml]. destruct (Hh m g k Hk) as [[Hm Hkn] [Hold Hnew]].
-        split; [lia|]. split.
-        -- intros Hlt. destruct (Hold Hlt) as [Hcl|[a [Ha Hg]]]; [left; exact Hcl|right].
-           exists a. split; [exact Ha|exact (gamma_ext n0 R h h' a k Hext Hkn Hg)].
-        -- intros Hgem. destruct (Hnew Hgem) as [a [Ha Hg]].
-           exists a. split.
-           ++ rewrite Hsites by exact Hml. exact Ha.
-           ++ exact (gamma_ext n0 R h h' a k Hext Hkn Hg).
-    + (* inv_bt *)
-      intros m Hgem Hm Hb. destruct (Nat.eq_dec m l) as [->|Hml].
-      * rewrite Hsite. destruct Hbase as [Hown|[z [lz [Hz [Hez Hbz]]]]]; [lia|].
-        rewrite Hbz in Hb. rewrite Hbz. destruct (He z lz Hez) as [Hlz [a [Ha Hg]]].
-        destruct (taint1_view n0 R b0 H h a lz Hbt Hb0 Hlz Hg Hb) as [q [l' [Hq [Hr Hbl]]]].
-        exists q, l'. split; [|split; assumption].
-        apply (nsubset_In _ _ q Htaint).
-        exact (taint_in H _ a q (alooks_in E vw z a Hz Ha) Hq).
-      * rewrite Hsites by exact Hml. rewrite Hbases in Hb by exact Hml. rewrite Hbases by exact Hml.
-        apply (Hbt m Hgem); [lia|exact Hb].
-    + (* inv_base *)
-      intros m Hm. rewrite Hbases by lia. exact (Hb0 m Hm).
-    + lia.
-    + exists (ASite s). split; [apply asingle_in|]. cbn [gamma ASite]. split; [exact Hge|].
-      rewrite Hsite. symmetry. apply N.pos_pred_succ.
+    destruct (alloc_preserves n0 R b0 H h h' l s Hal Hh Hbt Hb0 Hn0) as [Hext [Hh' [Hbt' [Hb0' [Hl Hg]]]]].
+    + (* the references of the new object *)
+      intros g k Hk. destruct (Hkids g k Hk) as [-> Hsrc].
+      assert (Hdesc : (k < next h)%nat /\ exists a, PS.In a need /\ gamma n0 R h a k).
+      { destruct Hsrc as [[z [Hz Hez]]|[[z [lz [g' [Hz [Hez [Hkz Hfm]]]]]]|[z [lz [Hz [Hez Hre]]]]]].
+        - destruct (He z k Hez) as [Hkn [a [Ha Hg]]]. split; [exact Hkn|]. exists a. split; [|exact Hg].
+          apply aunion_l. exact (alooks_in E sh z a Hz Ha).
+        - destruct (He z lz Hez) as [Hlz [a0 [Ha0 Hg0]]].
+          destruct (kids_sound n0 R H h lz g' k a0 cf Hh Hkz Hg0 Hfm) as [Hkn [a [Ha Hg]]].
+          split; [exact Hkn|]. exists a. split; [|exact Hg].
+          apply aunion_r. apply aunion_l. apply (aload_in H cf _ a a0); [|exact Ha].
+          exact (alooks_in E cp z a0 Hz Ha0).
+        - destruct (reach_vars_sound n0 R H h e E dp rd z lz k He Hh Hrd Hz Hez Hre) as [Hkn [a [Ha Hg]]].
+          split; [exact Hkn|]. exists a. split; [|exact Hg].
+          apply aunion_r. apply aunion_r. exact Ha. }
+      destruct Hdesc as [Hkn [a [Ha Hg]]]. split; [exact Hkn|].
+      exact (descr_noleaf n0 R h need _ a k Ha Hg Hneed).
+    + (* its buffer *)
+      intros Hb. destruct Hbase as [Hown|[z [lz [Hz [Hez Hbz]]]]]; [destruct Hal as [-> _]; lia|].
+      rewrite Hbz in Hb. rewrite Hbz. destruct (He z lz Hez) as [Hlz [a [Ha Hg]]].
+      destruct (taint1_view n0 R b0 H h a lz Hbt Hb0 Hlz Hg Hb) as [q [l' [Hq [Hr Hbl]]]].
+      exists q, l'. split; [|split; assumption].
+      apply (nsubset_In _ _ q Htaint).
+      exact (taint_in H _ a q (alooks_in E vw z a Hz Ha) Hq).
+    + split; [exact Hext|]. split; [exact Hh'|]. split; [exact Hbt'|]. split; [exact Hb0'|]. split; [exact Hl|].
+      exists (ASite s). split; [apply asingle_in|exact Hg].
   - (* EChoice, left *)
     cbn [eval_expr] in Hv.
     destruct (eval_expr H E a) as [u|] eqn:Hu; [|discriminate Hv].
